@@ -27,7 +27,7 @@ def run(ctx):
     R.assume("regex crate semantics (classes, `.`, flags scoping, quantifiers); the parser delivers the tokens the text denotes (C18 decides the literal/escape sets)")
     R.assume("Unix configuration: separator class `/`; cfg(windows) arms are not analysable on this image")
     R.undecided("the nom grammar beyond the literal / escape sets (class archetypes, tree-wildcard prefix/postfix absorption, "
-                "bound defaults, flag threading); whole-expression language equality follows by induction from the decided clauses + regex semantics")
+                "flag threading); whole-expression language equality follows by induction from the decided clauses + regex semantics")
     encoder.rule_leaf(F, R)
     encoder.rule_tree(F, R)
     encoder.rule_whole(F, R)
@@ -35,6 +35,7 @@ def run(ctx):
     encoder.rule_homo(F, R)
     encoder.rule_ctx(F, R)
     rule_delegate(F, R)
+    rule_bounds(F, R)
     from . import exhaust
     exhaust.report_query(F, R, "C01.whole", ctx.tier, "semantics", 15000, 4000)
 
@@ -54,3 +55,64 @@ def rule_delegate(F, R):
                 good = len(evs) == 1 and evs[0][1] == "?program"
                 R.check(good, "C01.delegate", "%s::%s" % (owner, method), "one %s call on the glob's own program" % rxfn, it.where(),
                         fail_msg="%s::%s consults %r instead of exactly one %s on its own compiled program" % (owner, method, evs, rxfn))
+
+
+# README "Repetitions": the bound specification after the sub-glob and what it denotes (lower, upper; None = unbounded).
+DOCUMENTED_BOUNDS = [
+    (">", (0, None), "colon omitted: zero or more, `<a>` = `<a:0,>`"),
+    (":>", (1, None), "no bounds after the colon: one or more, `<a:>` = `<a:1,>`"),
+    (":0,>", (0, None), "`:0,` zero or more"),
+    (":1,>", (1, None), "`:1,` one or more"),
+    (":1,4>", (1, 4), "`:1,4` between one and four times"),
+    (":2,10>", (2, 10), "inclusive lower and upper bounds"),
+    (":3>", (3, 3), "a singular bound is convergent: `:3` exactly three times"),
+    (":12>", (12, 12), "a singular bound is convergent"),
+    (":7,7>", (7, 7), "inclusive lower and upper bounds"),
+]
+
+
+def rule_bounds(F, R):
+    """C01.bounds: the parser's bound specification of a repetition (`repetition::bounds`, nom combinators evaluated with
+    the model in sa/nommodel.py) yields the documented (lower, upper) for every documented form and leaves the closing
+    `>` unconsumed.  Necessary: these two numbers are the only thing the rest of the library knows about how many times
+    the body repeats."""
+    from ..teval import Interp, strip, Adt, Tup
+    from .. import nommodel as N
+    it = F.find("token::parse::parse::repetition::bounds", optional=True)
+    R.check(it is not None, "C01.bounds", "anchor", "the parser has a bound-specification function `repetition::bounds`", "src/token/parse.rs",
+            fail_msg="token::parse::parse::repetition::bounds not found (the rule needs its anchor; fail closed)")
+    if it is None:
+        return
+    n = 0
+    for text, (lo, hi), why in DOCUMENTED_BOUNDS:
+        I = Interp(F, N.stubs())
+        cases = I.explore(lambda: I.call_item(it, [N.make_input(text, 5)], inst=False))
+        got = None
+        problem = None
+        if I.tops:
+            problem = "unanalysable: %s" % (I.tops[0],)
+        elif len(cases) != 1:
+            problem = "%d outcomes for a concrete text" % len(cases)
+        else:
+            r = strip(cases[0].result)
+            if not N.is_ok(r):
+                problem = "the documented form is rejected: %r" % (r,)
+            else:
+                rest, out = N.unpack(r)
+                out = strip(out)
+                rest_text = strip(rest).fields["text"]
+                if isinstance(out, Tup) and len(out.items) == 2:
+                    l = strip(out.items[0])
+                    u = strip(out.items[1])
+                    if isinstance(u, Adt) and u.variant == "None":
+                        u = None
+                    elif isinstance(u, Adt) and u.variant == "Some":
+                        u = strip(u.fields["0"])
+                    got = (l, u)
+                if got != (lo, hi):
+                    problem = "parsed as (lower, upper) = %r, documented %r" % (got if got is not None else out, (lo, hi))
+                elif rest_text != ">":
+                    problem = "leaves %r unconsumed, expected the closing `>`" % (rest_text,)
+        n += 1
+        R.check(problem is None, "C01.bounds", "<a%s" % text, "README: %s" % why, it.where(), fail_msg=problem)
+    R.floor("C01.bounds", "documented bound forms", n, 9)
